@@ -512,6 +512,60 @@ static Script random_script(Rng &r, int maxlen) {
   return s;
 }
 
+
+// Is the symbol loop still alive after these symbols?  Oracle = the real decoder: with num_faces = number of symbols,
+// a generous vertex budget and no interior start face, DecodeConnectivity(int) accepts iff no symbol returned -1
+// (and the compaction found nothing wrong).
+static bool alive(const Script &base, size_t len) {
+  Script s = base; s.full = false; s.syms.resize(len); s.nf = (int64_t)len; s.a = 3 * (int64_t)len + 3; s.b = 1;
+  s.bits.assign(len + 2, false);
+  // events refer to encoder ids relative to the ORIGINAL length; keep them consistent for the cut script
+  std::string viol; return run_script(s, &viol) != "rej";
+}
+// valid script cut at a random point, then a hostile suffix grown symbol by symbol among the choices that keep the run alive
+static bool gen_live_suffix(const Script &valid, Rng &r, Script *out) {
+  if (valid.syms.size() < 3) return false;
+  Script s = valid; s.full = false;
+  size_t cut = 1 + r.below(valid.syms.size() - 1);
+  // drop the events whose source or split symbol lies in the removed tail is NOT needed: ids are encoder ids counted from
+  // the END of the list, so we re-base them to the new length below
+  int total = 0;
+  s.syms.resize(cut);
+  int want = 1 + (int)r.below(8);
+  for (int t = 0; t < want; t++) {
+    uint32_t order[5]; for (int i = 0; i < 5; i++) order[i] = SYM[i];
+    for (int i = 4; i > 0; i--) std::swap(order[i], order[r.below(i + 1)]);
+    bool grown = false;
+    for (int i = 0; i < 5 && !grown; i++) {
+      Script c = s; c.syms.push_back(order[i]);
+      // re-base events: an event (src, spl) of the valid script referred to decoder ids d = n0-1-src; keep decoder ids
+      c.evs.clear();
+      int n0 = (int)valid.syms.size(), n1 = (int)c.syms.size();
+      for (const Ev &e : valid.evs) {
+        int ds = n0 - 1 - (int)e.src, dp = n0 - 1 - (int)e.spl;
+        if (ds < 0 || dp < 0 || ds >= n1 || dp >= n1) continue;
+        c.evs.push_back({(uint32_t)(n1 - 1 - ds), (uint32_t)(n1 - 1 - dp), e.edge});
+      }
+      std::stable_sort(c.evs.begin(), c.evs.end(), [](const Ev &x, const Ev &y) { return x.src < y.src; });
+      if (r.chance(25) && order[i] == 1 && n1 >= 2) {   // an extra split event aimed at the new S
+        int ds = (int)r.below(n1 - 1);
+        c.evs.push_back({(uint32_t)(n1 - 1 - ds), 0u, (uint32_t)r.below(2)});
+        std::stable_sort(c.evs.begin(), c.evs.end(), [](const Ev &x, const Ev &y) { return x.src < y.src; });
+      }
+      if (alive(c, c.syms.size())) { s = c; grown = true; total++; }
+    }
+    if (!grown) break;
+  }
+  if (total == 0) return false;
+  // one last arbitrary symbol (may die) in half of the cases
+  if (r.chance(50)) { s.syms.push_back(SYM[r.below(5)]);
+    for (Ev &e : s.evs) { e.src++; e.spl++; } }
+  size_t len = s.syms.size();
+  s.nf = (int64_t)len + (int64_t)r.below(3); s.a = 3 * (int64_t)len + 3; s.b = 1;
+  s.bits.resize(len + 2); for (size_t i = 0; i < s.bits.size(); i++) s.bits[i] = r.chance(50);
+  *out = s; return true;
+}
+
 int main(int argc, char **argv) {
   if (argc < 4) { fprintf(stderr, "usage: h_eb <tier> <seed> <outfile>\n"); return 2; }
   const bool thorough = std::string(argv[1]) == "thorough";
@@ -548,6 +602,14 @@ int main(int argc, char **argv) {
     if (r.chance(25)) s = to_full(s, r);
     hs.push_back(s);
   }
+  // valid prefix + hostile suffix that keeps the symbol loop alive (reaches guards deep inside a run)
+  { int nlive = thorough ? 6000 : 1200; long made = 0;
+    for (int i = 0; i < nlive && !valid.empty(); i++) {
+      const Script &b = valid[r.below(valid.size())];
+      if (b.syms.size() > 80) continue;
+      Script m; if (gen_live_suffix(b, r, &m)) { hs.push_back(m); made++; if (r.chance(30)) hs.push_back(mutate(m, r)); }
+    }
+    o.note("live-suffix scripts=" + S(made)); }
   // the two witnesses of Properties_EB.v (C03_eb_*_refuted) as well-formed 2.2 headers through the real DecodeConnectivity()
   { Script s; s.full = true; s.a = 5; s.nf = 4; s.b = 0; s.syms = {7, 3, 3}; s.bits.assign(5, true); hs.push_back(s);
     Script d; d.full = true; d.a = 3; d.nf = 2; d.b = 1; d.syms = {7, 1}; d.evs = {{1, 0, 1}}; d.bits.assign(2, false); hs.push_back(d);
